@@ -312,6 +312,8 @@ def excluded_before(n, lhs, ix):
                     return True
         if a.get("k") == "match":
             sc = show(peel(a["scrut"]))
+            if not (s_ == sc or s_ == sc + ".0" or s_.startswith(sc + ".")):
+                continue  # the match pins a different value
             for arm in a["arms"]:
                 if contains(arm["body"], n):
                     # inside an arm whose pattern pins the response to a specific variant
